@@ -180,3 +180,82 @@ func Verif_C20_registry_sequence() {
 	}
 	verifAssert("mutex-released", s.mu == (c20zeroMutex()))
 }
+
+// concurrent registry use while serving: mutual exclusion (no happens-before race) and per-key consistency
+func Verif_C20_concurrent_registry() {
+	verifEngineOnly()
+	verifRaceDetect(true)
+	d := 2
+	if verifTier() >= 1 {
+		d = 3
+	}
+	verifNote("serving server (dial left pending); two goroutines each issue 2 registry operations (symbolically chosen from AddPeer / DeletePeer / GetPeer / ListPeers) on the same remote address: all schedules within 2 (quick) / 3 (thorough) delays, sleep-set reduced; happens-before race detection; results must be consistent per key (AddPeer/DeletePeer results alternate correctly in the order the lock was taken) and the final registry must agree with them")
+	s, _ := NewServer(netip.AddrFrom4([4]byte{10, 0, 0, 1}))
+	verifDial = &dialScript{outcomes: []dialOutcome{dialPendingThenFail}, mk: func(int) *symConn { return newStagedConn("out") }}
+	pl := newMonPlugin()
+	ra := netip.AddrFrom4([4]byte{192, 0, 2, 1})
+	done := make(chan error, 1)
+	go func() { done <- s.Serve(nil) }()
+	verifQuiesce()
+	verifDelayBound(d)
+	type res struct {
+		op  int
+		err error
+		n   int
+	}
+	var results [2][2]res
+	fin := make(chan int, 2)
+	for g := 0; g < 2; g++ {
+		ops := [2]int{verifChoose("op", 4), verifChoose("op", 4)}
+		go func(g int, ops [2]int) {
+			for k, op := range ops {
+				r := res{op: op}
+				switch op {
+				case 0:
+					r.err = s.AddPeer(PeerConfig{RemoteAddress: ra, LocalAS: 65000, RemoteAS: 65001}, pl)
+				case 1:
+					r.err = s.DeletePeer(ra)
+				case 2:
+					_, r.err = s.GetPeer(ra)
+				case 3:
+					r.n = len(s.ListPeers())
+				}
+				results[g][k] = r
+			}
+			fin <- g
+		}(g, ops)
+	}
+	<-fin
+	<-fin
+	verifDelayBound(0)
+	// net effect: successful adds minus successful deletes must be 0 or 1 and equal the final presence
+	adds, dels := 0, 0
+	for g := 0; g < 2; g++ {
+		for k := 0; k < 2; k++ {
+			r := results[g][k]
+			switch r.op {
+			case 0:
+				verifAssert("addpeer-result-is-nil-or-already-exists", r.err == nil || r.err == ErrPeerAlreadyExists)
+				if r.err == nil {
+					adds++
+				}
+			case 1:
+				verifAssert("deletepeer-result-is-nil-or-not-exist", r.err == nil || r.err == ErrPeerNotExist)
+				if r.err == nil {
+					dels++
+				}
+			case 2:
+				verifAssert("getpeer-result-is-nil-or-not-exist", r.err == nil || r.err == ErrPeerNotExist)
+			case 3:
+				verifAssert("listpeers-size-0-or-1", r.n == 0 || r.n == 1)
+			}
+		}
+	}
+	present := len(s.ListPeers())
+	verifAssert("registry-consistent-with-results", adds-dels == present && (present == 0 || present == 1))
+	s.Close()
+	verifAssert("serve-returns", <-done == ErrServerClosed)
+	verifQuiesce()
+	verifAssert("no-goroutine-left", verifGoroutines() == 0)
+	verifCover("concurrent-registry")
+}
